@@ -101,6 +101,32 @@ check("C02", "exploration",
       "Held on the recorded runs only; reachable pre-states and choice resolutions are sampled by the scheduler. TLC is an evaluator here, not an explorer. A spec-level assertion failure that TLC finds enabled in a visited state (not taken by Go) voids that trace and is noted, not reported. Pairs without an adapter (replicatedkv, raftres) are not claimed.",
       "runtime monitoring: recorded executions of the real generated code validated offline, step by step, by TLC against the shipped spec (translation validation over observed traces)", "simsched+tlc")
 
+
+check("C03", "exploration",
+      "Every exported operator of distsys/tla (Module* symbols and the builtins helpers: quantifiers, CHOOSE, comprehension, EXCEPT, cross product, function/record sets, SelectElement...) is applied to a deterministic grid of boundary/ill-typed argument tuples plus seeded random applications and short compositions; every library call (also calls nested in compositions and made from quantifier/EXCEPT bodies) is judged alone against an independent reference evaluator of TLA+/TLC semantics (own canonical value type, explicit 32-bit range checks), with the statement's allowance table (loud ErrTLAType where TLC raises, for sequence/function kind mismatches and EXCEPT outside the domain; CHOOSE only has to be in the set, satisfy the predicate and be a function of the set). Outcome classes: value / loud type error / other panic / hang (suspects are re-run alone in a fresh child). The reference itself is calibrated on a seeded sample against the real TLC every run.",
+      "Inputs are sampled (grid + random), not exhausted. A reference-vs-TLC disagreement is a harness bug and makes the batch inconclusive. Known findings (cross-kind comparisons answering instead of raising; tuple vs function-with-domain-1..n treated as different values by = \\in etc.; Seq(S) as permutations) are keyed by (operator, argument-kind signature, outcome class).",
+      "runtime monitoring: differential oracle (independent reference evaluator, TLC-calibrated) over generated operator applications in child processes with hang detection", "direct+tlc")
+
+check("C06", "exploration",
+      "Generated topologies (1-4 senders x 1-3 receivers as real MPCalContexts running hand-built archetypes through one IncMap) over TCP mailboxes, relaxed mailboxes (+ length), Output->Input channels, raftkvs CustomInChan and SingleOutputChan, with seeded aborts on both sides (after send, after receive, failing sibling PreCommit), 5-50 ms timeouts, tiny receive buffers with pausing receivers, large messages and a byte-level proxy that delays but never drops/reorders/closes; one case per child process, every sixth under -race. Offline oracle over unique ids <<sender, section, attempt, k>>: per link exactly-once FIFO of committed sends vs committed receives, delivery after the sender's commit point, whole contiguous TCP batches, redelivery order after aborts, reported length <= pending; quiescence is counted (kernel socket queues empty), never timed.",
+      "Connection failures are outside the statement; timeouts are inside. Three timeout-induced defects (duplicate batch after commit-ack timeout, batch overtaken after redial, relaxed message overtaken after write-timeout redial) are open known findings recognised structurally from the witness plus the library's own timeout log lines; any other loss/duplicate/reorder is fresh.",
+      "runtime monitoring: offline exactly-once/FIFO checker over recorded send/receive events with unique ids, fault and delay injection via proxy and hooks, race detector", "direct")
+
+check("C07", "exploration",
+      "2-8 real contexts run a hand-built sharer archetype over 1-6 LocalSharedManagers (directly, behind Persistent with badger, behind IncMap) holding list/function/register/account variables; random and deliberately opposite access orders, read-only sections, lock timeouts 1-50 ms, perturbation at H1 commit/abort points while locks are held, injected aborts while holding locks, a GetState observer; one case per child. Oracles: read-your-writes and repeatable reads within a section, version-chain consistency, no aborted write visible, ww/wr/rw + real-time dependency graph acyclic (witness: shortest cycle), the commit-point sequence replays as a serial order, conservation of a constant sum, leaked locks, and a logical deadlock criterion (H8 events show every sharer inside tryEnsureLock in a wait-for cycle and goroutine states show each blocked without a timeout alternative). -race batches decide on races on the protected fields only.",
+      "Duration-based deadlock criteria proved unsound on a loaded machine and were replaced by goroutine-state tests; a bare stall is inconclusive.",
+      "runtime monitoring: serializability checking over recorded section histories (dependency graph + commit-order replay) with lock hooks and the race detector", "direct")
+
+check("C16", "exploration",
+      "For every other generated system with an adapter (dqueue, loadbalancer, proxy with perfect and practical FD, shcounter, gcounter, shopcart, nestedcrdtimpl) the shipped archetypes run one attempt at a time under eight scheduling policies over harness resources implementing the spec's mapping macros (unique ids where the spec uses constants), with Go monitors after every committed step: no spec assertion fails, exactly-once in-order delivery to requesting consumers and conservation (dqueue), BuffersOk and exactly one answer per request (loadbalancer), ProxyOK and its history form (proxy, perfect FD), final value = NUM_NODES (shcounter), equal knowledge => equal read and monotonic counters (CRDT systems); spec-exact traces are validated by TLC with the specs' invariants as written. Real TCP runs of dqueue, loadbalancer and proxy (with backend crashes) are judged by the same counting oracles at the input/output channels.",
+      "replicatedkv has no wiring or tests in-tree and is not covered. proxy.tla's shipped TLA+ block is stale w.r.t. its own PlusCal (validated against the regenerated translation as well). The shopcart AWORSet spec-level anomaly (equal knowledge, unequal state after removes) is an open known finding. Liveness properties are restated at termination.",
+      "runtime monitoring: invariant and conservation monitors at commit boundaries of serialised schedules + offline TLC evaluation + counting oracles on real TCP runs", "simsched+tlc+tcp")
+
+check("C19", "exploration",
+      "Generated scenarios run the real Monitor (ListenAndServe, RunArchetype, Close) and real SingleFailureDetectors on 127.0.0.1: archetypes ending by Done / assertion / resource error / panic / Stop, all orders of monitor start, archetype start and end, detector start, monitor Close, and 'unreachable' realised by a harness TCP proxy cutting listener and established connections (also flaps, blackhole, slow replies); poll interval 2-20 ms, timeouts 1-50 ms or 2 s. An offline oracle over H4 events (monitor state changes, poll start/end with outcome, ReadValue call/return, one sequence counter) checks completeness, accuracy (generous-timeout configurations only), read stability and counted-time bounds (ReadValue blocks at most one interval, measured in harness ticks, reproduced twice before reporting); a share of scenarios under -race.",
+      "'Within a bounded number of polling intervals' is restated as order statements over counted events. A closed Monitor whose established connections still answer counts as reachable; verdicts on unreachability use the proxy-cut case. Up to four unsuccessful polls before the first success are tolerated.",
+      "runtime monitoring: offline trace-specification checker over failure-detector hook events with fault injection via TCP proxy, race detector", "direct")
+
 PROPS = [json.loads(l)["id"] for l in open(os.path.join(ROOT, "properties.jsonl"))]
 
 def main():
